@@ -172,4 +172,20 @@ theorem resolvesS_of_resolves (H : Bytes → Bytes) (dec : Bytes → Option Shap
   simp only [shapesOf, h r hr, Option.bind_some]
   exact hdec r hr
 
+/-- a tree whose paths cross an extension and a branch: keys `[1,2] := 65`, `[1,3] := 66` -/
+def xExt : Node := .ext 1 [1] (.full 1 (upd (upd emptyCh 2 (.leaf 1 [] [65])) 3 (.leaf 1 [] [66])) none)
+
+theorem xExt_refs (r : Ref) (hr : r ∈ refs xExt []) :
+    r = ⟨[], xExt⟩ ∨ r = ⟨[1], .full 1 (upd (upd emptyCh 2 (.leaf 1 [] [65])) 3 (.leaf 1 [] [66])) none⟩ ∨
+    r = ⟨[1, 2], .leaf 1 [] [65]⟩ ∨ r = ⟨[1, 3], .leaf 1 [] [66]⟩ := by
+  simp [refs, xExt, upd, emptyCh, List.finRange, List.ofFn] at hr
+  rcases hr with h | h | ⟨a, _, ha⟩
+  · exact Or.inl h
+  · exact Or.inr (Or.inl h)
+  · by_cases h3 : a = 3
+    · subst h3; simp [refs] at ha; exact Or.inr (Or.inr (Or.inr ha))
+    · by_cases h2 : a = 2
+      · subst h2; simp [refs] at ha; exact Or.inr (Or.inr (Or.inl ha))
+      · simp [h3, h2, refs] at ha
+
 end Verif.MptStore
